@@ -333,7 +333,15 @@ class FTPProcessorSession(BaseProcessorSession):
             if is_file and \
                     self._processor.fetch_params.preserve_permissions and \
                     hasattr(response.body, 'name'):
-                yield from self._apply_unix_permissions(request, response)
+                try:
+                    yield from self._apply_unix_permissions(request, response)
+                except REMOTE_ERRORS as error:
+                    # The file is saved. Only its mode bits are unknown.
+                    _logger.warning(
+                        _('Could not read the permissions of ‘{url}’: '
+                          '{error}'),
+                        url=request.url, error=error
+                    )
 
             response.body.close()
 
